@@ -224,3 +224,136 @@ Proof.
   exists 300, (witness_gsi ++ witness_tti 300 1 2 20 0 0 [65] ++ witness_tti 300 3 4 20 0 0 [66]).
   split; [|split]; vm_compute; [discriminate | reflexivity | reflexivity].
 Qed.
+
+(* ---- grouping: extension blocks are concatenated, user-data/reserved blocks are skipped --------------------------- *)
+Definition is_ext (t : tti) : bool := text_block t && negb (t_ebn t =? 255).
+Definition ext_or_skip (t : tti) : Prop := is_ext t = true \/ text_block t = false.
+Definition acc_tf (s : state) : list Z := if st_in_ext s then st_tf s else [].
+
+Fixpoint fold_blocks (identity : bool) (f : datafile) (s : state) (ts : list tti) : state + error :=
+  match ts with
+  | [] => inl s
+  | t :: r => match process_tti identity f s t with inl s' => fold_blocks identity f s' r | inr e => inr e end
+  end.
+
+Lemma process_skip identity f s t : text_block t = false -> process_tti identity f s t = inl s.
+Proof.
+  unfold text_block, process_tti. intros H. destruct ((239 <? t_ebn t) && (t_ebn t <? 255)); [reflexivity | discriminate].
+Qed.
+Lemma process_ext identity f s t : is_ext t = true ->
+  process_tti identity f s t = inl (mkState true (acc_tf s ++ strip_8f (t_tf t)) (st_last_sn s) (st_divs s) (st_cur s) (st_regions s)).
+Proof.
+  unfold is_ext, text_block, process_tti, acc_tf. intros H. apply andb_true_iff in H as [H1 H2].
+  destruct ((239 <? t_ebn t) && (t_ebn t <? 255)); [discriminate|]. rewrite H2. reflexivity.
+Qed.
+
+Lemma ext_chain identity f : forall ts s, Forall ext_or_skip ts ->
+  exists s', fold_blocks identity f s ts = inl s' /\
+             acc_tf s' = acc_tf s ++ concat (map (fun x => strip_8f (t_tf x)) (filter text_block ts)) /\
+             st_last_sn s' = st_last_sn s /\ st_divs s' = st_divs s /\ st_cur s' = st_cur s /\ st_regions s' = st_regions s.
+Proof.
+  induction ts as [|t r IH]; intros s H.
+  - exists s. cbn. rewrite app_nil_r. repeat split.
+  - inversion H as [|? ? Ht Hr]; subst. cbn [fold_blocks filter]. destruct Ht as [Ht|Ht].
+    + rewrite (process_ext identity f s t Ht).
+      assert (Htb : text_block t = true) by (unfold is_ext in Ht; apply andb_true_iff in Ht; tauto). rewrite Htb.
+      destruct (IH (mkState true (acc_tf s ++ strip_8f (t_tf t)) (st_last_sn s) (st_divs s) (st_cur s) (st_regions s)) Hr)
+        as (s' & Hf & Ha & H1 & H2 & H3 & H4).
+      exists s'. split; [exact Hf|]. cbn [map concat]. unfold acc_tf in *. cbn [st_in_ext st_tf] in Ha.
+      rewrite Ha, <- app_assoc. repeat split; assumption.
+    + rewrite (process_skip identity f s t Ht), Ht. apply IH, Hr.
+Qed.
+
+(* the text field that the terminal block of a subtitle is decoded from: the stripped text fields of all its
+   text-carrying blocks, in order *)
+Lemma grouping_tf identity f ts s t : st_in_ext s = false -> Forall ext_or_skip ts -> text_block t = true ->
+  exists s', fold_blocks identity f s ts = inl s' /\
+             fst (block_view f s' t) = concat (map (fun x => strip_8f (t_tf x)) (filter text_block (ts ++ [t]))).
+Proof.
+  intros Hs Hts Ht. destruct (ext_chain identity f ts s Hts) as (s' & Hf & Ha & _).
+  exists s'. split; [exact Hf|]. unfold block_view. cbn [fst]. fold (acc_tf s'). rewrite Ha.
+  unfold acc_tf at 1. rewrite Hs. cbn [app]. rewrite filter_app, map_app, concat_app. cbn [filter]. rewrite Ht.
+  cbn [map concat]. rewrite app_nil_r. reflexivity.
+Qed.
+
+(* ... which, for well-shaped fields, is the concatenation of the blocks' texts as Tech 3264 defines them *)
+Lemma grouping_tf_spec (ts : list tti) : Forall (fun x => trigger_strip (t_tf x) = false) ts ->
+  concat (map (fun x => strip_8f (t_tf x)) ts) = concat (map (fun x => text_of_field (t_tf x)) ts).
+Proof.
+  induction 1 as [|t r Ht _ IH]; [reflexivity|]. cbn [map concat]. rewrite (strip_is_cut _ Ht), IH. reflexivity.
+Qed.
+
+(* ---- one subtitle: the terminal block of a non-cumulative subtitle with a new number ------------------------------ *)
+Definition text_align_of (jc : Z) : Z := if jc =? 1 then 0 else if jc =? 3 then 2 else 1.
+
+(* it becomes a paragraph visible exactly from TCI to TCO (shifted by the programme start), holding the pieces of its
+   accumulated text field, aligned by JC, in the region of its VP *)
+Lemma new_subtitle f s t rows r :
+  text_block t = true -> t_ebn t = 255 -> t_cs t = 0 -> sn_is_not true (t_sn t) (st_last_sn s) = true ->
+  f_max_rows f = Some rows ->
+  let tf := acc_tf s ++ strip_8f (t_tf t) in
+  let b := (offset_q (f_fps f) (t_tci t) - f_start f)%Q in
+  let e := (offset_q (f_fps f) (t_tco t) - f_start f)%Q in
+  q_neg b = false -> q_lt e b = false ->
+  region_for rows (t_vp t) tf (has_double_height_char tf) = Some r ->
+  exists s', process_tti true f s t = inl s' /\
+    st_cur s' = Some (t_sgn t,
+                      mkPara (fst (get_region (st_regions s) r)) (text_align_of (t_jc t))
+                             (if f_teletext f && negb (has_double_height_char tf) then default_single_height_font_size_pct
+                              else default_double_height_font_size_pct)
+                             default_line_height_pct (Some (b, e))
+                             (map PLeaf (tf_model (decoder_of_cct (f_cct f)) (f_teletext f) tf))) /\
+    st_regions s' = snd (get_region (st_regions s) r).
+Proof.
+  intros Htb Hebn Hcs Hsn Hrows tf b e Hb He Hr.
+  unfold process_tti. unfold text_block in Htb.
+  destruct ((239 <? t_ebn t) && (t_ebn t <? 255)); [discriminate|].
+  rewrite Hebn. cbn [Z.eqb Pos.eqb negb].
+  fold (acc_tf s). fold tf. fold b. rewrite Hb. fold e. rewrite He.
+  rewrite Hsn, Hcs. cbn [Z.eqb orb andb]. rewrite Hrows, Hr.
+  destruct (get_region (st_regions s) r) as [ri rs] eqn:Hg. cbn [st_cur fst snd].
+  eexists. split; [reflexivity|]. cbn [st_cur st_regions]. split; reflexivity.
+Qed.
+
+(* a subtitle that starts before the programme start is dropped: nothing but the extension bookkeeping changes *)
+Lemma early_subtitle_dropped identity f s t :
+  text_block t = true -> t_ebn t = 255 -> q_neg (offset_q (f_fps f) (t_tci t) - f_start f) = true ->
+  exists s', process_tti identity f s t = inl s' /\ st_divs s' = st_divs s /\ st_cur s' = st_cur s /\
+             st_regions s' = st_regions s /\ st_last_sn s' = st_last_sn s /\ st_in_ext s' = false.
+Proof.
+  intros Htb Hebn Hb. unfold process_tti. unfold text_block in Htb.
+  destruct ((239 <? t_ebn t) && (t_ebn t <? 255)); [discriminate|].
+  rewrite Hebn. cbn [Z.eqb Pos.eqb negb]. rewrite Hb. eexists. split; [reflexivity|]. repeat split.
+Qed.
+
+(* an intermediate (CS 2) or last (CS 3) member of a cumulative set is added to the open paragraph as a span timed by
+   its own TCI/TCO, followed by a line break unless it is the last *)
+Lemma cumulative_member f s t sgn p :
+  text_block t = true -> t_ebn t = 255 -> t_cs t = 2 \/ t_cs t = 3 -> st_cur s = Some (sgn, p) ->
+  let tf := acc_tf s ++ strip_8f (t_tf t) in
+  let b := (offset_q (f_fps f) (t_tci t) - f_start f)%Q in
+  let e := (offset_q (f_fps f) (t_tco t) - f_start f)%Q in
+  q_neg b = false -> q_lt e b = false ->
+  exists s', process_tti true f s t = inl s' /\
+    st_cur s' = Some (sgn, mkPara (p_region p) (p_align p) (p_font_size p) (p_line_height p) (p_time p)
+                                  (p_items p ++ [PSub b e (tf_model (decoder_of_cct (f_cct f)) (f_teletext f) tf ++
+                                                           (if t_cs t =? 2 then [LBr] else []))])) /\
+    st_divs s' = st_divs s /\ st_regions s' = st_regions s.
+Proof.
+  intros Htb Hebn Hcs Hcur tf b e Hb He.
+  unfold process_tti. unfold text_block in Htb.
+  destruct ((239 <? t_ebn t) && (t_ebn t <? 255)); [discriminate|].
+  rewrite Hebn. cbn [Z.eqb Pos.eqb negb].
+  fold (acc_tf s). fold tf. fold b. rewrite Hb. fold e. rewrite He.
+  destruct Hcs as [Hcs|Hcs]; rewrite Hcs; cbn [Z.eqb Pos.eqb orb andb]; rewrite andb_false_r; cbn [st_cur]; rewrite Hcur;
+    eexists; (split; [reflexivity|]); cbn [st_cur st_divs st_regions]; rewrite ?app_nil_r; repeat split.
+Qed.
+
+Lemma grouping_partial identity f ts s t : st_in_ext s = false -> Forall ext_or_skip ts -> text_block t = true ->
+  Forall (fun x => trigger_strip (t_tf x) = false) (filter text_block (ts ++ [t])) ->
+  exists s', fold_blocks identity f s ts = inl s' /\
+             fst (block_view f s' t) = concat (map (fun x => text_of_field (t_tf x)) (filter text_block (ts ++ [t]))).
+Proof.
+  intros Hs Hts Ht Hw. destruct (grouping_tf identity f ts s t Hs Hts Ht) as (s' & Hf & Hv).
+  exists s'. split; [exact Hf|]. rewrite Hv. exact (grouping_tf_spec _ Hw).
+Qed.
